@@ -77,9 +77,10 @@ def measure_family(name):
     row['savesStartStep'] = 'start_step' in st0
     # constructor passes a requested jump interval through
     try:
-        _, p3, _ = forcing.make_chain(name, rng=random.Random(3), jump_interval=3, window=9,
+        # (a later start step must not lengthen the configured duration: it is measured from there)
+        _, p3, _ = forcing.make_chain(name, rng=random.Random(3), jump_interval=3, window=9, start_step=3,
                                       nparams=max(lo, 2) if hi >= 2 else lo)
-        row['passesJumpInterval'] = p3.jump_interval == 3
+        row['passesJumpInterval'] = p3.jump_interval == 3 and p3.jump_interval_duration == 9
     except Exception:
         row['passesJumpInterval'] = False
     init_digest = I.adaptive_digest(prop)
